@@ -7,6 +7,7 @@ import ICS.Spec.C15
 import ICS.Spec.Slash
 import ICS.Spec.C01
 import ICS.Spec.C16
+import ICS.Spec.C07
 namespace ICS.Driver
 open ICS ICS.Provider ICS.Epoch
 
@@ -287,6 +288,34 @@ def splitCoin (s : String) : String × String :=
 def renderDecCoin (amt : Nat) (denom : String) : String :=
   if amt == 0 then "" else decString amt ++ denom
 
+def parseVote (s : String) : Equiv.Vote :=
+  match s.splitOn "/" with
+  | [sg, ad, ch, h, r, t, b, ok] =>
+    { signer := nat0 sg, addr := nat0 ad, chain := ch, height := nat0 h, round := nat0 r, type := nat0 t, block := nat0 b, sigOK := ok == "1" }
+  | _ => default
+
+def parseUnb (s : String) : List Equiv.Unb :=
+  (splitNE s ",").filterMap fun t =>
+    match t.splitOn ":" with
+    | [v, k, a, c, h] => some { v := nat0 v, isRed := k == "r", amount := nat0 a, completion := int0 c, onHold := h == "1" }
+    | _ => none
+
+def renderEqEffect : Equiv.Effect → String
+  | .slash v p f => s!"slash_v={v}_h=0_power={p}_frac={f}_inf=1"
+  | .jail v => s!"jail_v={v}"
+  | .jailUntil v t => s!"jailuntil_v={v}_t={t}"
+  | .tombstone v => s!"tombstone_v={v}"
+
+def parseEqEffect (t : String) : Option Equiv.Effect :=
+  let kv := (t.splitOn "_").map fun x => match x.splitOn "=" with | [a, b] => (a, b) | _ => (x, "")
+  let g := fun k => match kv.find? (·.1 == k) with | some p => p.2 | none => ""
+  match (kv.head?.map (·.1)).getD "" with
+  | "slash" => some (.slash (nat0 (g "v")) (nat0 (g "power")) (g "frac"))
+  | "jail" => some (.jail (nat0 (g "v")))
+  | "jailuntil" => some (.jailUntil (nat0 (g "v")) (int0 (g "t")))
+  | "tombstone" => some (.tombstone (nat0 (g "v")))
+  | _ => none
+
 structure ProvDrv where
   impl : ProvImpl := {}
   engine : List ValSet.Val := []      -- the consensus engine's view: all returned updates folded
@@ -493,6 +522,32 @@ def stepProvCore (d : ProvDrv) (a : Acc) (s : Step) : ProvDrv × Acc :=
       let a := a.spec s.lineNo "C08.ack-cases" (Spec.Slash.ackCases dl)
       let a := a.spec s.lineNo "C09.meter-rule" (Spec.Slash.meterRule dl)
       ({ impl := after }, compareState a s.lineNo r.1 after lifecycleFields lifecycleGlobals)
+  | "dvote" =>
+    let c := s.op.get "c"
+    let o := s.ob "r"
+    let e : Equiv.Evidence :=
+      { a := parseVote (s.op.get "a"), b := parseVote (s.op.get "b"),
+        hv := if s.op.get "hv" == "nil" then none else some (s.op.natList "hv"), ord := int0 (o.get "ord") }
+    let unb := parseUnb (before.g.get "unb")
+    let m := Equiv.handleDV st unb c e
+    let ok := res == "ok"
+    let a := a.cmp s.lineNo "dvote.res" (if m.isSome then "ok" else "err") res
+    let a := a.cmp s.lineNo "dvote.stage" (if Equiv.basicOK e then "handler" else "basic") (o.get "stage")
+    let effI := splitNE (o.get "effects") "|"
+    let a := a.cmp s.lineNo "dvote.effects" ("|".intercalate ((m.getD []).map renderEqEffect)) ("|".intercalate effI)
+    let effs := effI.filterMap parseEqEffect
+    let x := st.get c
+    let stkA := parseStk (after.g.get "stk")
+    let a := a.spec s.lineNo "C07.accepted-only-if-valid" (Spec.C07.acceptedOnlyIfValid x e ok) s!"{repr e}"
+    let a := a.spec s.lineNo "C07.only-signer" (Spec.C07.onlySigner x e effs) s!"{o.get "effects"}"
+    let a := a.spec s.lineNo "C07.punished-per-settings" (Spec.C07.punishedPerSettings x st.stk unb st.now e ok effs) s!"{o.get "effects"}"
+    let a := a.spec s.lineNo "C07.frame" (Spec.C07.frame x e ok st.stk stkA) s!"before={before.g.get "stk"} after={after.g.get "stk"}"
+    let a := a.spec s.lineNo "C07.tombstoned-never-again" (Spec.C07.tombstonedNeverAgain st.stk effs)
+    let a := a.spec s.lineNo "C07.rejected-changes-nothing" (ok || (after.cs.all fun e2 => e2.2 == (before.cfields e2.1)))
+    let a := if ok then { (a.tag "dvote-accepted") with nontrivial := a.nontrivial + 1 }
+             else if Spec.C07.validFor x e then a.tag "dvote-valid-but-unpunishable"
+             else if !Equiv.basicOK e then a.tag "dvote-rejected-basic" else a.tag "dvote-rejected"
+    ({ impl := after }, a)
   | "reward" =>
     let c := s.op.get "c"
     let denom := s.op.get "denom"
